@@ -124,6 +124,12 @@ func (ip *IPv4) SerializeTo(b gopacket.SerializeBuffer, opts gopacket.SerializeO
 	copy(bytes[16:20], ip.DstIP)
 
 	curLocation := 20
+	// The option area may not be covered completely by the options below
+	// (padding, option data shorter than the option length): do not leave
+	// whatever the buffer held before in it.
+	for i := curLocation; i < len(bytes); i++ {
+		bytes[i] = 0
+	}
 	// Now, we will encode the options
 	for _, opt := range ip.Options {
 		switch opt.OptionType {
